@@ -23,5 +23,14 @@ def unhexChars : List Char → Option Bytes
     let t ← unhexChars r
     pure (UInt8.ofNat (x * 16 + y) :: t)
 
-def unhex (s : String) : Option Bytes := unhexChars s.toList
+/-- tail-recursive variant for the driver (multi-megabyte requests) -/
+def unhexGo : List Char → List UInt8 → Option Bytes
+  | [], acc => some acc.reverse
+  | [_], _ => none
+  | a :: b :: r, acc =>
+    match val a, val b with
+    | some x, some y => unhexGo r (UInt8.ofNat (x * 16 + y) :: acc)
+    | _, _ => none
+
+def unhex (s : String) : Option Bytes := unhexGo s.toList []
 end Hex
